@@ -33,8 +33,8 @@ ASSUMPTIONS = [
     "composed sets whose oracle reference cannot be produced (measure-zero intersections, unbounded operands) are only checked for membership",
 ]
 MIN_COUNTERS = {
-    "quick": {"regions_sampled": 500, "draws_checked_for_membership": 300000, "uniformity_tests": 300, "discrete_enumerations": 40, "composed_regions_sampled": 400, "visible_restrictions_sampled": 10, "not_visible_restrictions_sampled": 10, "pointset_intersections_enumerated": 8},
-    "thorough": {"regions_sampled": 2000, "draws_checked_for_membership": 6000000, "uniformity_tests": 1200, "discrete_enumerations": 120, "composed_regions_sampled": 1500, "visible_restrictions_sampled": 60, "not_visible_restrictions_sampled": 60, "pointset_intersections_enumerated": 30},
+    "quick": {"regions_sampled": 500, "draws_checked_for_membership": 250000, "uniformity_tests": 300, "operand_signature_tests": 250, "discrete_enumerations": 25, "composed_regions_sampled": 400, "visible_restrictions_sampled": 10, "not_visible_restrictions_sampled": 10, "pointset_intersections_enumerated": 8},
+    "thorough": {"regions_sampled": 2000, "draws_checked_for_membership": 6000000, "uniformity_tests": 1200, "operand_signature_tests": 800, "discrete_enumerations": 120, "composed_regions_sampled": 1500, "visible_restrictions_sampled": 60, "not_visible_restrictions_sampled": 60, "pointset_intersections_enumerated": 30},
 }
 MANIFEST_ENTRY = {
     "technique": "runtime monitoring: wrapped samplers + membership contract against a construction-data oracle; two-sample chi-square over oracle-built equal-count cells; exact enumeration of discrete samplers' RNG branches",
